@@ -83,7 +83,7 @@ def run(ctx, P):
 
 
 META = dict(
-    bounds=dict(quick="periods {2,3} (HMA 3,4,7), n = warm-up+4 candles, input = close / high / a late-starting symbolic reading missing on the first s in {1,p} candles; EMA smoothing 2 and 3",
+    bounds=dict(quick="periods {2,3} (HMA 3,4,7), n = warm-up+4 candles, input = close / high / a late-starting symbolic reading missing on the first s in {1,p} candles; EMA smoothing 2 and 3; SMA/EMA/RMA/WMA(2) and HMA(4) also over the T2 buckets of a stream fed one raw candle per append (6-12 candles); VWMA: only the window volume is assumed > 0",
                 thorough="periods {2,3,4} (HMA 3,4,7,9), n = warm-up+6, s in {0,1,2,p,p+1}"),
     stubs=["float arithmetic -> exact real arithmetic", "round(x, 10) -> identity ('up to rounding')", "max/min -> If-terms"],
     assumptions=["window volume > 0 for VWMA (totality is C09's)", "a counterexample must deviate by more than 1e-6*(1+|ref|) and reproduce on the real code"],
